@@ -18,13 +18,23 @@ RULE = ("service sets of 1-5 services loaded from generated ODX XML (shared, nes
         "request prefix; NRC-CONST alternatives; shared and doubly referenced responses; 0-2 global negative responses) x messages "
         "(own encodings through the real encoder and written down from the description, every byte string of length <= 3 over the "
         "prefix alphabet + {00, ff} (quick: length 3 sampled when the alphabet is large), single-byte mutations, truncations, "
-        "extensions) x {decode, decode_response} x {strict, non-strict}; distinct = distinct (layer description, message, request, mode); "
+        "extensions) x {decode, decode_response} x {strict, non-strict}; every (coding object of the layer, message, mode) is also "
+        "checked against the parameter-match verdict read off the description; x call histories on one layer object (per layer 4 "
+        "(thorough: 8 for every 10th layer) probe calls, mostly own encodings walking through the same first byte: first call on a freshly "
+        "loaded layer = reference, then the same call again, every other probe interleaved, the same call once more, and the same call "
+        "inside the main loop after hundreds of earlier calls); distinct = distinct (layer description, message, request, mode); "
         "non-trivial = the tree walk of the model returns at least one candidate service")
 TRUSTED = ["model lean/OdxVerif/Model/Dispatch.lean is hand-written; tied to diaglayer.py/diagservice.py/codec.py/servicebinner.py by "
            "comparing candidate lists, reported (service, coding object) lists incl. order and duplicates, error classes, constant "
            "prefixes and service groups on every generated case",
            "the decoding of ONE coding object is an oracle taken from the real code (request.decode / response.decode): ok | DecodeMismatch | "
-           "DecodeError | other; the bytes one constant parameter encodes to are taken from param.encode_into_pdu on an empty state"]
+           "DecodeError | other; the bytes one constant parameter encodes to are taken from param.encode_into_pdu on an empty state",
+           "that oracle is itself checked, for every coding object x message x mode, against dispatch_lib.desc_verdict (hand-written, "
+           "description level: message long enough for every parameter, NRC-CONST bytes one of the alternatives in both modes, "
+           "PHYS-CONST value equal in strict mode): 'ok' iff the verdict is 'matches' (clause coding-object-match)",
+           "history-independence is a model-free metamorphic oracle on the real code: the result list (order and duplicates included) of a "
+           "call after other calls on the same layer object must equal the result of the same call as the first call on a freshly loaded "
+           "layer; a main-loop violation is reported with the single-call witness only after it was reproduced as a first call"]
 ASSUMPTIONS = ["envelope: byte-aligned constant parameters without explicit BYTE-POSITION (a constant contributes the bytes it encodes to on its own)",
                "Unambiguous: the main theorem assumes no service has two own coding objects matching the message (strict mode reports "
                "'cannot uniquely decode'); ambiguous cases are covered by C06_attribution_general and by the correspondence runs only",
@@ -32,7 +42,10 @@ ASSUMPTIONS = ["envelope: byte-aligned constant parameters without explicit BYTE
                "candidate); the fix contradicts four odxtools unit tests (somersault 'schroedinger' service), so the model follows the code",
                "non-strict mode differs from strict mode only for ambiguous services (first matching coding object instead of 'cannot "
                "uniquely decode'): C06_lenient_eq_strict / C06_lenient_general / C06_lenient_attribution; the direct oracle checks the "
-               "attribution in non-strict mode for ambiguous input as well"]
+               "attribution in non-strict mode for ambiguous input as well",
+               "a PHYS-CONST behind the constant prefix whose value differs makes the coding object not match in strict mode only "
+               "(odxraise: tolerated in non-strict mode by design, like a CODED-CONST mismatch which is a warning in both modes); "
+               "an NRC-CONST whose alternatives do not contain the message byte makes it not match in both modes"]
 
 KNOWN_LOCAL = common.VERIF / "fixes" / "known_C06.jsonl"
 
@@ -53,6 +66,11 @@ class Reporter:
                     if e.get("status") == "open" and e["id"] not in merged:
                         self.local.append(e)
         self.hit = {}
+        self.open = list(self.local) if raw else self.local + [k for k in common.load_known(ID) if k.get("status") == "open"]
+
+    def is_known(self, clause, features, observed):
+        sig = {"clause": clause, "features": sorted(features), "observed": observed}
+        return any(common.sig_matches(e["signature"], sig) for e in self.open)
 
     def violate(self, clause, features, observed, witness, what):
         sig = {"clause": clause, "features": sorted(features), "observed": observed}
@@ -61,6 +79,14 @@ class Reporter:
                 self.hit[e["id"]] = e
                 self.ctx.count("known_finding_local:" + e["id"])
                 return
+        # hits of an open known finding which common code knows: common.finish needs one of them; every further one is only
+        # counted (common.Ctx.violate rescans all stored violations every 256th call, which is quadratic in their number)
+        for e in self.open:
+            if e not in self.local and common.sig_matches(e["signature"], sig):
+                self.ctx.count("known_finding_hits:" + e["id"])
+                if self.ctx.counters.get("known_finding_hits:" + e["id"], 0) > 64:
+                    return
+                break
         self.ctx.violate(clause, features, observed, witness, what)
 
     def finish(self):
@@ -154,7 +180,158 @@ def messages_for(desc, view, rng, big):
     return list(msgs.items()), pairs + extra
 
 
-def eval_layer(ctx, rep, desc, rng, big, pending, corpus=None):
+# ---------------------------------------------------------------- history: decoding is a function of (layer, message)
+def fresh_view(desc):
+    try:
+        return D.View(D.load_layer(desc))
+    except Exception:
+        return None
+
+
+def main_step(view, msg, req, strict):
+    """one step of the main loop: every coding object on its own (the oracle), the public call, the tree walk"""
+    old = D.set_strict(strict)
+    try:
+        outs = {n: D.outcome(co, msg) for n, co in view.cobj.items()}
+        res = D.run_decode(view, msg, req)
+        cands = D.run_candidates(view, msg if req is None else req)
+    finally:
+        D.set_strict(old)
+    return outs, res, cands
+
+
+def mk_call(msg, req, strict, main=False):
+    """a call as JSON: decode(msg) / decode_response(msg, req) in a mode; main = the whole main-loop step around it"""
+    c = {"msg": msg.hex(), "req": None if req is None else req.hex(), "strict": bool(strict)}
+    if main:
+        c["main"] = True
+    return c
+
+
+def public(c):
+    return {"msg": c["msg"], "req": c["req"], "strict": c["strict"]}
+
+
+def do_call(view, c):
+    if c.get("info"):
+        D.run_prefixes(view)
+        D.run_groups(view)
+        return None
+    msg = bytes.fromhex(c["msg"])
+    req = None if c["req"] is None else bytes.fromhex(c["req"])
+    if c.get("main"):
+        return main_step(view, msg, req, c["strict"])[1]
+    old = D.set_strict(c["strict"])
+    try:
+        return D.run_decode(view, msg, req)
+    finally:
+        D.set_strict(old)
+
+
+def replay_sequence(desc, calls):
+    """the calls one after the other on a freshly loaded layer → their results (None: the layer does not load)"""
+    v = fresh_view(desc)
+    if v is None:
+        return None
+    return [do_call(v, c) for c in calls]
+
+
+def diff_kind(got, ref):
+    if got is None or ref is None or got[0] != "ok" or ref[0] != "ok":
+        return "error-vs-result"
+    a, b = got[1], ref[1]
+    sa, sb = {x for x, _ in a}, {x for x, _ in b}
+    if sa - sb:
+        return "service-extra"
+    if sb - sa:
+        return "service-missing"
+    if set(a) == set(b):
+        return "duplicates" if sorted(a, key=str) != sorted(b, key=str) else "order"
+    return "different-coding-object"
+
+
+def history_violation(ctx, rep, desc, history, c, got, ref, scenario):
+    op = "decode" if c["req"] is None else "decode_response"
+    kind = diff_kind(got, ref)
+    ctx.histo("history_violation", f"{scenario}/{op}/{kind}")
+    call = f"{op}({c['msg']}" + ("" if c["req"] is None else f", {c['req']}") + ")"
+    rep.violate("history-independence", [op, kind], "differs-from-first-call",
+                {"layer": desc, **c, "history": history, "got": str(got), "first_call": str(ref)},
+                f"{call} reports {got} after {len(history)} earlier call(s) on the same layer object, but {ref} as the first "
+                f"call on the freshly loaded layer ({kind})")
+
+
+def shrink_history(desc, hist, c, ref):
+    """a short call sequence after which the call c does not give its first-call result: c itself, one earlier public
+    call (those walking through the same first byte first), else everything that happened (main-loop steps)"""
+    cp = public(c)
+    wb = (c["req"] if c["req"] is not None else c["msg"])[:2]
+    singles, seen = [], set()
+    for h in hist:
+        if h.get("info"):
+            continue
+        k = (h["msg"], h["req"], h["strict"])
+        if k not in seen:
+            seen.add(k)
+            singles.append(public(h))
+    singles.sort(key=lambda h: (h["req"] if h["req"] is not None else h["msg"])[:2] != wb)
+    for hs in [[cp]] + [[h] for h in singles[:40]]:
+        r = replay_sequence(desc, hs + [cp])
+        if r is not None and r[-1] != ref:
+            return hs, cp, r[-1]
+    r = replay_sequence(desc, hist + [c])
+    return hist, c, (r[-1] if r else None)
+
+
+def pick_probes(cases, rng, k):
+    """the calls of the history scenarios: mostly own encodings whose walk starts with the same byte (services sharing
+    or nesting a constant prefix), one arbitrary case"""
+    own = [c for c in cases if c[3].startswith("own") or (c[3] == "pair" and c[4] is not None)] or list(cases)
+    if not own:
+        return []
+    walk = lambda c: (c[1] if c[2] is None else c[2])[:1]
+    c0 = rng.choice(own)
+    group = [c for c in own if walk(c) == walk(c0)]
+    chosen = rng.sample(group, min(len(group), k - 1))
+    rest = [c for c in cases if c not in chosen]
+    chosen += rng.sample(rest, min(len(rest), k - len(chosen)))
+    out, seen = [], set()
+    for c in chosen:
+        pc = mk_call(c[1], c[2], rng.random() < 0.7)
+        key = json.dumps(pc, sort_keys=True)
+        if key not in seen:
+            seen.add(key)
+            out.append(pc)
+    return out
+
+
+def history_phase(ctx, rep, desc, probes):
+    """every probe as the FIRST call on its own freshly loaded layer (the reference); then, on that layer object: the same
+    call again, every other probe (interleaving services which share a prefix), the same call once more — each result must
+    be the reference of its call.  Returns {call key: reference}."""
+    refs, views = [], []
+    for c in probes:
+        v = fresh_view(desc)
+        if v is None:
+            return {}
+        views.append(v)
+        refs.append(do_call(v, c))
+    for i, v in enumerate(views):
+        hist = [probes[i]]
+        seq = [i] + [j for j in range(len(probes)) if j != i] + [i]
+        ctx.case(("history", json.dumps(desc, sort_keys=True), json.dumps([probes[j] for j in [i] + seq], sort_keys=True)),
+                 nontrivial=any(r is not None and r[0] == "ok" for r in refs))
+        for j in seq:
+            got = do_call(v, probes[j])
+            ctx.count("history_calls")
+            if got != refs[j]:
+                history_violation(ctx, rep, desc, list(hist), probes[j], got, refs[j], "repeat" if j == i and len(hist) == 1 else "interleaved")
+                break
+            hist.append(probes[j])
+    return {(c["msg"], c["req"], c["strict"]): r for c, r in zip(probes, refs)}
+
+
+def eval_layer(ctx, rep, desc, rng, big, pending, corpus=None, hrng=None):
     """run the implementation on one layer; queue driver lines; returns nothing (see flush)"""
     try:
         view = D.View(D.load_layer(desc))
@@ -162,6 +339,7 @@ def eval_layer(ctx, rep, desc, rng, big, pending, corpus=None):
         ctx.count("layer_load_failed:" + type(e).__name__)
         return
     view.dcod = D.desc_codings(desc)
+    view.hist = [{"info": True}]          # everything that is done with this layer object, in order
     ctx.count("layers")
     ctx.histo("services_per_layer", len(view.services))
     ctx.histo("gnrs_per_layer", len(view.gnrs))
@@ -172,21 +350,30 @@ def eval_layer(ctx, rep, desc, rng, big, pending, corpus=None):
     else:
         msgs, pairs = messages_for(desc, view, rng, big)
         cases = [("decode", m, None, tag, None) for m, tag in msgs] + [("response", e, rq, "pair", exp) for e, rq, exp in pairs]
+    # history scenarios on fresh layer objects (before the main loop, which has a long history of its own)
+    if corpus is not None:
+        probes = [mk_call(m, rq, st) for (_, m, rq, _, _) in cases for st in (True, False)][:16]
+    else:
+        probes = pick_probes(cases, hrng or rng, 8 if big else 4)
+    refs = history_phase(ctx, rep, desc, probes) if probes else {}
     for (op, msg, req, tag, exp) in cases:
         modes = [True] if (corpus is None and rng.random() < 0.7) else [True, False]
         for strict in modes:
-            old = D.set_strict(strict)
-            try:
-                outs = {n: D.outcome(co, msg) for n, co in view.cobj.items()}
-                res = D.run_decode(view, msg, req)
-                cands = D.run_candidates(view, msg if req is None else req)
-            finally:
-                D.set_strict(old)
+            outs, res, cands = main_step(view, msg, req, strict)
+            hi = len(view.hist)
+            view.hist.append(mk_call(msg, req, strict, main=True))
             line = (f"(decode (strict {'t' if strict else 'f'}) (msg {common.hexa(msg)}) "
                     f"(walk {common.hexa(msg if req is None else req)}) {view.layer_sexp(outs)})")
-            pending.append((op, desc, view, (msg, req, strict, tag, exp, outs), line, (res, cands)))
+            pending.append((op, desc, view, (msg, req, strict, tag, exp, outs, hi), line, (res, cands)))
             ctx.histo("message_kind", tag)
             ctx.histo("mode", ("strict" if strict else "lenient") + "/" + op)
+            # the same call deep inside the main loop's history against its first-call reference
+            ref = refs.get((msg.hex(), None if req is None else req.hex(), strict)) if refs else None
+            if ref is not None:
+                ctx.count("history_main_loop_compared")
+                if res != ref:
+                    hs, c, got = shrink_history(desc, view.hist[:hi], view.hist[hi], ref)
+                    history_violation(ctx, rep, desc, hs, c, got if got is not None else res, ref, "main-loop")
 
 
 def witness(desc, msg, req, strict):
@@ -250,6 +437,34 @@ def check_info(ctx, rep, desc, view, line, impl, reply):
             break
 
 
+class HistoryGuard:
+    """The main loop makes thousands of calls on one layer object, so a failing call is reported with the witness (layer,
+    message, request, mode) only if it gives the same result as the first call on a freshly loaded layer; otherwise the
+    result depends on the calls made before, and *that* is reported (clause history-independence, witness = call sequence)."""
+
+    def __init__(self, ctx, rep, desc, view, hi, res):
+        self.ctx, self.rep, self.desc, self.view, self.hi, self.res = ctx, rep, desc, view, hi, res
+        self.dependent = None
+
+    def violate(self, clause, features, observed, w, what):
+        if self.dependent is None and self.rep.is_known(clause, features, observed):
+            self.rep.violate(clause, features, observed, w, what)     # an open known finding: nothing to confirm
+            return
+        if self.dependent is None:
+            self.dependent = False
+            hist = getattr(self.view, "hist", None)
+            if hist is not None and 0 < self.hi < len(hist):
+                c = hist[self.hi]
+                ref = replay_sequence(self.desc, [public(c)])
+                self.ctx.count("violation_confirmed_on_fresh_layer")
+                if ref is not None and ref[-1] != self.res:
+                    self.dependent = True
+                    hs, c2, got = shrink_history(self.desc, hist[:self.hi], c, ref[-1])
+                    history_violation(self.ctx, self.rep, self.desc, hs, c2, got if got is not None else self.res, ref[-1], "main-loop")
+        if not self.dependent:
+            self.rep.violate(clause, features, observed, w, what)
+
+
 def norm_res(res):
     if res[0] == "err":
         return ("err", "foreign" if res[1].startswith("foreign") else res[1])
@@ -257,7 +472,7 @@ def norm_res(res):
 
 
 def check_decode(ctx, rep, op, desc, view, info, line, impl, reply):
-    (msg, req, strict, tag, exp, outs) = info
+    (msg, req, strict, tag, exp, outs, hi) = info
     (res, cands) = impl
     r = D.parse_decode_reply(reply)
     ctx.traces += 1
@@ -295,6 +510,7 @@ def check_decode(ctx, rep, op, desc, view, info, line, impl, reply):
                         f"{'do not match (' + why + ')' if why else 'match'}")
             break
     # ---- direct oracle: the Lean *Spec* (attributed services) against the implementation
+    rep = HistoryGuard(ctx, rep, desc, view, hi, res)
     attr = r["attr"]
     if any(o == "foreign" for o in outs.values()):
         ctx.count("oracle_foreign_outcome")     # C05's business
@@ -347,7 +563,15 @@ def check_decode(ctx, rep, op, desc, view, info, line, impl, reply):
             if tag.startswith("own") and attr:
                 ctx.count("own_encoding_attributed")
     elif op == "response":
-        # soundness: reported ⊆ attributed for the response; completeness for the service that was asked
+        # soundness: only services found through the request (Spec `Found` = the model's walk, C06_prefix_tree_complete_partial) ...
+        found = set(r["cands"])
+        for sn in sorted(set(reported) - found):
+            rep.violate("response-via-request", ["service-extra", "request-does-not-match"], "reported",
+                        {**w, "service": view.sname.get(sn)},
+                        f"decode_response() attributes {msg.hex()} to service {view.sname.get(sn)} although the request "
+                        f"{req.hex()} does not start with a constant prefix of that service")
+            break
+        # ... reported ⊆ attributed for the response; completeness for the service that was asked
         for sn, cs in reported.items():
             ok = {c for c, _ in attr.get(sn, [])}
             if not cs <= ok:
@@ -432,7 +656,7 @@ def run(ctx):
     for i in range(n_layers):
         rng = ctx.sub_rng("layer", i)
         desc = D.gen_layer(rng)
-        eval_layer(ctx, rep, desc, rng, big and i % 10 == 0, pending)
+        eval_layer(ctx, rep, desc, rng, big and i % 10 == 0, pending, hrng=ctx.sub_rng("history", i))
         if len(pending) > 4000:
             flush(ctx, rep, pending)
     flush(ctx, rep, pending)
@@ -441,6 +665,11 @@ def run(ctx):
 
 def replay(ctx, data):
     w = data["witness"]
+    if w.get("history") is not None:       # a call sequence: the last call against the same call on a fresh layer
+        final = {k: w[k] for k in ("msg", "req", "strict", "main") if k in w}
+        got = replay_sequence(w["layer"], list(w["history"]) + [final])
+        ref = replay_sequence(w["layer"], [public(final)])
+        return got is not None and ref is not None and got[-1] == ref[-1]
     sub = type(ctx)(ctx.pid, ctx.tier, ctx.seed)
     rep = Reporter(sub, raw=True)
     pending = []
